@@ -163,6 +163,147 @@ mod c19 {
         println!("VERIF-B unit=store test=c19_referenced_manifest_walk_all_small_graphs evaluations={evals} nontrivial={nontrivial} exhaustive={} domain=every directed ingredient graph on 1..=3 manifests (all edge subsets, optional dangling reference) and on 4 manifests ({}), last manifest active; one chain of MAX_INGREDIENT_DEPTH+1", thorough, if thorough { "all 65536" } else { "every 7th of 65536" });
     }
 
+    // ---- the validation walk itself (Store::ingredient_checks): every manifest's ingredient list is walked at most once
+    // per store validation, whatever the references' hashes say, so the walk is linear in the number of references.
+    // Stores: SIGNED ladders (the walk stops at the first manifest whose signature does not parse, so unsigned graphs
+    // would decide nothing): level k references level k-1 twice, each reference carrying the right manifest hash or a
+    // wrong one; every combination per level, depth <= 5 (6).  Observation: the VerifyingIngredient checkpoints of a full
+    // Store::from_stream; the callback cancels as soon as the linear bound is exceeded, so an exponential walk is
+    // reported quickly instead of being waited for.
+    fn ladder_level(prev_asset: &[u8], level: usize, flags: (bool, bool), ctx: &Context, signer: &dyn crate::Signer) -> Result<Vec<u8>> {
+        use crate::{assertions::{Action, Actions, Relationship}, jumbf::labels::{to_assertion_uri, to_signature_uri}};
+        let format = "image/jpeg";
+        let mut report = StatusTracker::default();
+        let prev_store = Store::from_stream(format, std::io::Cursor::new(prev_asset.to_vec()), &mut report, ctx)?;
+        let prev_pc = prev_store.provenance_claim().ok_or(Error::ClaimEncoding)?;
+        let prev_hashes = prev_store.get_manifest_box_hashes(prev_pc);
+        let mut claim = Claim::new("verif_ladder", Some(&format!("m{level}")), 2);
+        claim.add_claim_generator_info(ClaimGeneratorInfo::new("test"));
+        let (prev_jumbf, _) = Store::load_jumbf_from_stream(format, &mut std::io::Cursor::new(prev_asset.to_vec()), ctx)?;
+        let mut store = Store::load_ingredient_to_claim(&mut claim, &prev_jumbf, None, ctx)?;
+        for good in [flags.0, flags.1] {
+            let mut h = prev_hashes.manifest_box_hash.clone();
+            if !good {
+                h[0] ^= 0xff;
+            }
+            let parent_uri = HashedUri::new(prev_store.provenance_path().ok_or(Error::ClaimEncoding)?, Some(prev_pc.alg().to_string()), &h);
+            let sig_uri = HashedUri::new(to_signature_uri(prev_pc.label()), Some(prev_pc.alg().to_string()), &prev_hashes.signature_box_hash);
+            let validation = crate::ValidationResults::from_store(&prev_store, &report);
+            let ingredient = Ingredient::new_v3(Relationship::InputTo)
+                .set_active_manifests_and_signature_from_hashed_uri(Some(parent_uri), Some(sig_uri))
+                .set_validation_results(Some(validation));
+            claim.add_assertion(&ingredient)?;
+        }
+        let mut actions = Actions::new().add_action(Action::new("c2pa.created").set_source_type(crate::DigitalSourceType::Empty));
+        for ia in claim.ingredient_assertions() {
+            let u = HashedUri::new(to_assertion_uri(claim.label(), &ia.label()), Some(claim.alg().to_owned()), ia.hash());
+            actions = actions.add_action(Action::new("c2pa.edited").set_parameter("ingredients", vec![u])?);
+        }
+        claim.add_assertion(&actions)?;
+        store.commit_claim(claim)?;
+        let mut input = std::io::Cursor::new(std::fs::read(crate::utils::test::fixture_path("IMG_0003.jpg"))?);
+        let mut output = std::io::Cursor::new(Vec::new());
+        store.save_to_stream(format, &mut input, &mut output, signer, ctx)?;
+        Ok(output.into_inner())
+    }
+
+    #[test]
+    fn c19_ingredient_walk_linear_in_references() {
+        use std::sync::{atomic::{AtomicUsize, Ordering}, Arc};
+        let thorough = std::env::var("VERIF_B_TIER").map(|t| t == "thorough").unwrap_or(false);
+        let max_depth = if thorough { 6 } else { 5 };
+        let mut evals = 0usize;
+        let mut nontrivial = 0usize;
+        let mut counts: std::collections::BTreeMap<String, usize> = std::collections::BTreeMap::new();
+        let mut build_ctx = Context::new();
+        build_ctx.settings_mut().verify.verify_after_sign = false;
+        build_ctx.settings_mut().verify.verify_after_reading = false;
+        let signer = crate::utils::test_signer::test_signer(crate::SigningAlg::Ed25519);
+        // the leaf
+        let leaf: Result<Vec<u8>> = (|| {
+            let mut input = std::io::Cursor::new(std::fs::read(crate::utils::test::fixture_path("IMG_0003.jpg"))?);
+            let mut output = std::io::Cursor::new(Vec::new());
+            crate::utils::test::create_test_store()?.save_to_stream("image/jpeg", &mut input, &mut output, signer.as_ref(), &build_ctx)?;
+            Ok(output.into_inner())
+        })();
+        let Ok(leaf) = leaf else {
+            println!("VERIF-B-SAMPLE leaf set-up failed: {:?}", leaf.err());
+            println!("VERIF-B unit=store test=c19_ingredient_walk_linear_in_references evaluations=0 nontrivial=0 exhaustive=false domain=set-up failed");
+            return;
+        };
+        // depth-first over the per-level flag combinations: (asset, depth, flags so far)
+        let mut stack: Vec<(Vec<u8>, usize, Vec<(bool, bool)>)> = vec![(leaf, 1, Vec::new())];
+        let mut setup_failed = 0usize;
+        let mut max_walk = 0usize;
+        while let Some((asset, depth, flags)) = stack.pop() {
+            if depth >= 2 {
+                // validate this ladder with default settings and count the ingredient checkpoints
+                // the number of ingredient assertions in the whole store (the leaf made by create_test_store has some of
+                // its own): each is one loop iteration of the manifest holding it, and every manifest is walked at most once
+                let refs: usize = {
+                    let mut quiet = StatusTracker::default();
+                    match Store::from_stream("image/jpeg", std::io::Cursor::new(asset.clone()), &mut quiet, &build_ctx) {
+                        Ok(st) => st.claims().iter().map(|c| c.ingredient_assertions().len()).sum(),
+                        Err(_) => {
+                            setup_failed += 1;
+                            continue;
+                        }
+                    }
+                };
+                let seen = Arc::new(AtomicUsize::new(0));
+                let s2 = Arc::clone(&seen);
+                let ctx = Context::new().with_progress_callback(move |p, _s, _t| {
+                    if matches!(p, crate::context::ProgressPhase::VerifyingIngredient) {
+                        s2.fetch_add(1, Ordering::SeqCst) < refs
+                    } else {
+                        true
+                    }
+                });
+                let mut report = StatusTracker::default();
+                let r = Store::from_stream("image/jpeg", std::io::Cursor::new(asset.clone()), &mut report, &ctx);
+                let walked = seen.load(Ordering::SeqCst);
+                max_walk = max_walk.max(walked);
+                evals += 1;
+                if depth >= 3 {
+                    nontrivial += 1;
+                }
+                if walked > refs || matches!(r, Err(Error::OperationCancelled)) {
+                    let c = counts.entry("ingredient_walk.manifest_walked_more_than_once".to_string()).or_insert(0);
+                    *c += 1;
+                    if *c <= 3 {
+                        println!("VERIF-B-VIOLATION key=ingredient_walk.manifest_walked_more_than_once input=signed ladder of {depth} manifests, per level (first, second reference carries the right hash)={flags:?}: more than {refs} VerifyingIngredient checkpoints for a store with {refs} ingredient assertions (result {:?})", r.as_ref().map(|_| "Ok").map_err(|e| format!("{e:?}")));
+                    }
+                } else if walked < 2 * (depth - 1) && r.is_ok() && flags.iter().all(|f| f.0 && f.1) {
+                    let c = counts.entry("ingredient_walk.valid_ladder_not_walked".to_string()).or_insert(0);
+                    *c += 1;
+                    if *c <= 3 {
+                        println!("VERIF-B-VIOLATION key=ingredient_walk.valid_ladder_not_walked input=signed ladder of {depth} manifests with correct hashes: {walked} of {} references visited", 2 * (depth - 1));
+                    }
+                }
+            }
+            if depth < max_depth {
+                for f in [(true, true), (false, false), (true, false)] {
+                    match ladder_level(&asset, depth, f, &build_ctx, signer.as_ref()) {
+                        Ok(next) => {
+                            let mut fl = flags.clone();
+                            fl.push(f);
+                            stack.push((next, depth + 1, fl));
+                        }
+                        Err(e) => {
+                            setup_failed += 1;
+                            if setup_failed <= 2 {
+                                println!("VERIF-B-SAMPLE ladder set-up failed at depth {depth} flags {f:?}: {e:?}");
+                            }
+                        }
+                    }
+                }
+            }
+        }
+        println!("VERIF-B-SAMPLE largest number of VerifyingIngredient checkpoints in one validation: {max_walk}; set-up failures: {setup_failed}");
+        println!("VERIF-B-SAMPLE violation classes this run: {:?}", counts);
+        println!("VERIF-B unit=store test=c19_ingredient_walk_linear_in_references evaluations={evals} nontrivial={nontrivial} exhaustive=true domain=signed ladders of 2..={max_depth} manifests (each level references the level below twice; per level both hashes right / both wrong / one of each: every combination), full Store::from_stream with a progress callback that counts VerifyingIngredient checkpoints");
+    }
+
     // ---- C28 (Engine B): which manifests are selected for an OCSP request at ingredient time
     #[test]
     fn c28_ocsp_label_selection_all_settings() {
